@@ -83,7 +83,7 @@ theorem inv_defineNode {ctx : Ctx} {g g1 g' : Graph} {idx : Nat} {ty : Ty} {name
       rw [hfn]; exact f.all j hj hv
 
 theorem inv_defineType {ctx : Ctx} {g g' : Graph} {name : Str} {ty : Ty} {out : Outcome}
-    (h : Inv ctx g) (hs : defineType ctx g name ty = (g', out)) : Inv ctx g' := by
+    (h : Inv ctx g) (hw : TyWF ctx) (hs : defineType ctx g name ty = (g', out)) : Inv ctx g' := by
   unfold defineType defineTypeWith at hs
   split at hs
   · simp only [Prod.mk.injEq] at hs; rw [← hs.1]; exact h
@@ -118,13 +118,17 @@ theorem inv_defineType {ctx : Ctx} {g g' : Graph} {name : Str} {ty : Ty} {out : 
           rw [← defineDepsOut_maps, ← defineDepsIn_maps]
           · have hA : Inv ctx (withMaps g1 (alInsert g1.defined ty idx) (alInsert g1.exports name idx)) :=
               inv_defineNode h hty hname a rfl rfl rfl rfl rfl rfl rfl rfl rfl
-            have hidx : IsDefNode (withMaps g1 (alInsert g1.defined ty idx) (alInsert g1.exports name idx)) idx :=
+            have hidx : IsDefNode (withMaps g1 (alInsert g1.defined ty idx) (alInsert g1.exports name idx)) idx ty :=
               ⟨⟨.definition ty, none, ctx.tyKind ty, none, some name⟩, a.new, rfl⟩
-            obtain ⟨k1, k2, _, k4⟩ := inv_depsIn (ctx := ctx) ty idx (ctx.tyVisits ty) _ hA hidx
+            obtain ⟨k1, k2, _, k4⟩ := inv_depsIn (ctx := ctx) ty idx (ctx.tyVisits ty) _ (hw ty) hA hidx
             refine inv_depsOut ty idx g.defined _ k1 k2 ?_
             intro e hem
             obtain ⟨x, hx, hxk⟩ := h.definedLive' e hem
-            exact isDefNode_congr k4 ⟨x, (a.old hx).1, by simp [Node.isDef, hxk]⟩
+            refine ⟨isDefNode_congr k4 ⟨x, (a.old hx).1, hxk⟩, fun hv => Nat.lt_of_le_of_ne (hw e.1 ty hv) ?_⟩
+            intro heq
+            have := alGet_of_mem _ h.definedKeys e hem
+            rw [← heq, hty] at this
+            cases this
           · intro k hk
             rw [alGet_alInsert]
             simp [Ne.symm hk]
